@@ -68,8 +68,8 @@ impl Prop for C19 {
         };
         for (i, &len) in lens.iter().enumerate() {
             for variant in 0..3 {
-                let big = |form| RowProg { cells: vec![Val::plain(Base::BigBytes { seed: i as u32 + 3, len })], form };
-                let small = RowProg { cells: vec![Val::plain(Base::Slice(b"x".to_vec()))], form: RowForm::WriteRow };
+                let big = |form| RowProg { cells: vec![Val::plain(Base::BigBytes { seed: i as u32 + 3, len })], form, offers: vec![] };
+                let small = RowProg { cells: vec![Val::plain(Base::Slice(b"x".to_vec()))], form: RowForm::WriteRow, offers: vec![] };
                 let cols = vec![ColSpec::simple("c", T_LONG_BLOB, 0)];
                 let (bin, rows, end) = match variant {
                     // binary, last row left open, RowWriter dropped: the big packet leaves from a destructor
